@@ -55,7 +55,35 @@ def waitfan(rng):
     return spec, [mk(i) for i in ids], dict(policy=rng.choice(["random", "lifo", "fifo"]))
 
 
-TEMPLATES = [fanout, waitfan]
+def multiwait(rng):
+    """ONE event resolves SEVERAL waiters of the same step in one tick: start sends n T1 -> `b_wait` (k <= n workers)
+    waits for any HR (no requirements) under its own waiter id, then gated, returns T2 -> `c_gather` collects n T2 ->
+    Stop.  All n invocations end up parked as waiters (a waiting invocation gives its slot back); one external HR then
+    admits n replays at once on k slots (the others must queue)."""
+    n = rng.choice([2, 3, 4])
+    k = rng.choice([1, 1, 2, n])
+    spec = dict(steps={
+        "a_start": dict(accepts=[StartEvent], returns=[T1, type(None)], num_workers=1,
+                        script=[("send", T1, n, None), ("return", None)]),
+        "b_wait": dict(accepts=[T1], returns=[T2], num_workers=k,
+                       script=[("wait", HR, {}, None, "w$i", None, "none"), ("gate", "w"), ("return", T2)]),
+        "c_gather": dict(accepts=[T2], returns=[StopEvent, type(None)], num_workers=1,
+                         script=[("collect", [T2] * n, None), ("return", StopEvent)]),
+    })
+
+    def hr(handler, rec):
+        # sent by a timer: time only passes when nothing else can happen, i.e. when every invocation is parked
+        import asyncio
+
+        def send():
+            rec.ev("external", ev="HR", k=0)
+            handler.ctx.send_event(HR(k=0))
+        asyncio.get_running_loop().call_later(20.0, send)
+    hr.label = "HR in 20 s"
+    return spec, [hr], dict(policy=rng.choice(["random", "fifo", "lifo"]), time_bias=0.0)
+
+
+TEMPLATES = [fanout, waitfan, multiwait]
 
 
 def targeted(rng):
@@ -79,7 +107,7 @@ def targeted(rng):
     return spec, [], dict(policy=rng.choice(["random", "lifo", "fifo"]))
 
 
-TEMPLATES_C02 = [fanout, targeted, waitfan]
+TEMPLATES_C02 = [fanout, targeted, waitfan]     # props/C02.py adds failflow (defined below)
 
 
 def irflow(rng):
@@ -373,7 +401,7 @@ def collectwait(rng):
     return spec, [hr], dict(policy="fifo", time_bias=0.0)
 
 
-def waitflow(rng):
+def waitflow(rng, gate_after=False):
     """deterministic workflow for snapshot/resume with WAITING steps: start sends n T1; each `b_wait` invocation parks in
     wait_for_event(HR, requirements={k: <its event id>}), records the tag of the event that resolved it in the state
     store (`got<i>`), increments `n` and returns T2; `c_gather` collects n T2 -> StopEvent("done").  Externals: for each
@@ -384,7 +412,8 @@ def waitflow(rng):
         "a_start": dict(accepts=[StartEvent], returns=[T1, type(None)], num_workers=1,
                         script=[("send", T1, n, None), ("return", None)]),
         "b_wait": dict(accepts=[T1], returns=[T2], num_workers=n,
-                       script=[("wait", HR, {"k": "$i"}, None, None, None, "none", "got"), ("incr", "n"), ("return", T2)]),
+                       script=[("wait", HR, {"k": "$i"}, None, None, None, "none", "got")]
+                       + ([("gate", "w")] if gate_after else []) + [("incr", "n"), ("return", T2)]),
         "c_gather": dict(accepts=[T2], returns=[StopEvent, type(None)], num_workers=1,
                          script=[("collect", [T2] * n, None), ("return_const", "done")]),
     })
